@@ -342,7 +342,7 @@ static void DecodeMem(Word Index) {
         } else {
             AdrLong = EvalStrIntExpression(&ArgStr[1], Int32, &OK);
             if (OK) {
-                OK = ChkRange(AdrLong, 0, 0);
+                OK = ChkRange(AdrLong, 0, 1);
             }
         }
         if (OK) {
@@ -362,8 +362,8 @@ static void DecodeMem(Word Index) {
                 }
                 if (OK) {
                     CodeLen     = 4;
-                    DAsmCode[0] = (pOrder->Code << 24) + Src3 + (Dest << 16) + (Src1 << 8)
-                                  + Src2;
+                    DAsmCode[0] = (pOrder->Code << 24) + Src3 + (AdrLong << 23) + (Dest << 16)
+                                  + (Src1 << 8) + Src2;
                     if (pOrder->MustSup) {
                         ChkSup();
                     }
